@@ -688,6 +688,7 @@ namespace bloch::compiler {
             std::unique_ptr<VariableDeclaration> extraVar = std::make_unique<VariableDeclaration>();
             extraVar->isFinal = isFinal;
             extraVar->annotations = cloneAnnotations(var->annotations);
+            extraVar->isTracked = var->isTracked;  // '@tracked qubit a, b;' tracks every declarator
             extraVar->varType = cloneType(*var->varType);
             extraVar->name = extraToken.value;
             extraVar->line = extraToken.line;
